@@ -144,6 +144,17 @@ def repair_phase(ctx, csim, files, magic, dirs):
         st["daemon_umask"] = "%03o" % um
         # ... and the same start-ups while the file system fills up (the k-th write to the file fails)
         sub = [p for p, (name, content, acc, cls) in zip(rpaths, rmeta) if name in ("absent", "trunc-00", "trunc-08", "trunc-16", "trunc-40", "all-zero-72", "magic-byte0-flipped", "ver1-gen0", "trunc-72", "size-71")]
+        # (the first pass repaired them all: put the original contents back)
+        for p, (name, content, acc, cls) in zip(rpaths, rmeta):
+            if p in sub:
+                if content is None:
+                    try:
+                        os.unlink(p)
+                    except OSError:
+                        pass
+                else:
+                    with open(p, "wb") as f:
+                        f.write(content)
         pf = run_list(ctx, csim, ["repairfail", "--list", "{list}"], sub, umask=um)
         ff = {"started": 0, "refused": 0, "failures_injected": 0}
         if pf.returncode != 0:
